@@ -196,7 +196,10 @@ def x_history(ctx, case):
                 if run.get("reenter"):
                     for attempt in range(2):
                         try:
-                            spinner.run(1, lambda: reentry.setdefault("ran", True))
+                            # (the second attempt through ANOTHER Spinner on the same reactor - a helper that makes
+                            # its own: it is the spinning that cannot be nested, whichever object is asked)
+                            (spinner if attempt == 0 or run["reenter"] != "other" else Spinner(reactor)).run(
+                                1, lambda: reentry.setdefault("ran", True))
                             reentry.setdefault("errors", []).append(None)
                         except BaseException as e:  # noqa
                             reentry.setdefault("errors", []).append(type(e).__name__)
@@ -415,7 +418,8 @@ def run(ctx):
     rng = ctx.rng
     n = 0
     variants = [{}, {"junk": [0.1, 9.0], "selectables": 1}, {"reinstall_sigint": True}, {"reenter": True},
-                {"pre_patch_stop": True}, {"junk": [50.0, 60.0, 70.0], "selectables": 2, "reinstall_sigint": True}]
+                {"pre_patch_stop": True}, {"junk": [50.0, 60.0, 70.0], "selectables": 2, "reinstall_sigint": True},
+                {"reenter": "other"}]
     for base in grid_runs():
         for vi, v in enumerate(variants):
             if ctx.quick and (n + ctx.seed) % 2 and vi not in (0, 4):
